@@ -61,11 +61,15 @@ pub struct CfbOpts {
     /// MS-CFB (the size is authoritative; editors that shrink a stream in place leave such chains behind).
     /// `random()` leaves it at 0.
     pub spare_sectors: usize,
+    /// unpadded mini stream: the root entry's size is the offset just behind the last byte of stream data in the mini
+    /// stream instead of a multiple of 64 (the mini stream's own sector chain is unchanged: whole sectors). The last
+    /// mini sector in use is then only partly inside the declared size. `random()` leaves it off.
+    pub unpadded_root: bool,
 }
 
 impl Default for CfbOpts {
     fn default() -> CfbOpts {
-        CfbOpts { sector_size: 512, shuffle: false, mini_shuffle: false, extra_free: 0, unused_dirs: 0, dir_shuffle: false, min_fat_sectors: 0, fill: 0, name_garbage: false, placement: 0, dir_first: false, free_after_tables: false, spare_sectors: 0 }
+        CfbOpts { sector_size: 512, shuffle: false, mini_shuffle: false, extra_free: 0, unused_dirs: 0, dir_shuffle: false, min_fat_sectors: 0, fill: 0, name_garbage: false, placement: 0, dir_first: false, free_after_tables: false, spare_sectors: 0, unpadded_root: false }
     }
 }
 
@@ -80,6 +84,7 @@ impl CfbOpts {
             dir_first: false,
             free_after_tables: false,
             spare_sectors: 0,
+            unpadded_root: false,
             name_garbage,
             sector_size: if v4 { 4096 } else { 512 },
             shuffle: rng.chance(3, 4),
@@ -211,6 +216,7 @@ pub fn write_cfb(streams: &[(String, Vec<u8>)], opts: &CfbOpts, rng: &mut Rng) -
     let mut minifat = vec![FREESECT; nm];
     let mut mini_start = vec![ENDOFCHAIN; streams.len()];
     let mut next_mini = 0usize;
+    let mut mini_used_end = 0usize;
     for (s, (_, d)) in streams.iter().enumerate() {
         let n = mini_counts[s];
         let ids = &mperm[next_mini..next_mini + n];
@@ -218,6 +224,9 @@ pub fn write_cfb(streams: &[(String, Vec<u8>)], opts: &CfbOpts, rng: &mut Rng) -
         for (k, &i) in ids.iter().enumerate() {
             let piece = &d[(k * 64).min(d.len())..d.len().min((k + 1) * 64)]; // empty for a spare mini sector
             mini[i * 64..i * 64 + piece.len()].copy_from_slice(piece);
+            if !piece.is_empty() {
+                mini_used_end = mini_used_end.max(i * 64 + piece.len());
+            }
             minifat[i] = if k + 1 < n { ids[k + 1] as u32 } else { ENDOFCHAIN };
         }
         if n > 0 {
@@ -328,7 +337,8 @@ pub fn write_cfb(streams: &[(String, Vec<u8>)], opts: &CfbOpts, rng: &mut Rng) -
     if opts.dir_shuffle {
         rng.shuffle(&mut others);
     }
-    let mut dir = entry("Root Entry", 5, start(-2), mini.len() as u64);
+    let root_size = if opts.unpadded_root { mini_used_end } else { mini.len() };
+    let mut dir = entry("Root Entry", 5, start(-2), root_size as u64);
     for o in others {
         dir.extend_from_slice(&o);
     }
